@@ -39,20 +39,23 @@ def getSTVCfg (j : Json) : D STVCfg := do
 model renders as listing order; when several of them are defective in different ways the exception class depends on
 that order (`C08_cand_order_random_transfer_differs`). For a raised answer in that configuration the driver also
 reports the exception classes met under the other rotations / reversals of the declared candidates. -/
-def stvExnAlts (cfg : STVCfg) (p : Profile) (ω : STVOracle) (qok : Bool) (ans : Json) : Json :=
+def exnAltsOver {α} (cfg : STVCfg) (cands : List Cand) (run : List Cand → Outcome α) (ans : Json) : Json :=
   if cfg.transfer == .random && cfg.simultaneous then
     match ans.getObjVal? "exn" with
     | .ok _ =>
-      let n := p.cands.length
-      let rots := (List.range n).map (fun k => p.cands.drop k ++ p.cands.take k)
+      let n := cands.length
+      let rots := (List.range n).map (fun k => cands.drop k ++ cands.take k)
       let orders := rots ++ rots.map List.reverse
       let alts := orders.filterMap (fun c' =>
-        match stvRun cfg { p with cands := c' } ω qok with
+        match run c' with
         | .raised e => some (Json.str (exnName e))
         | _ => none)
       ans.setObjVal! "exn_alts" (.arr alts.eraseDups.toArray)
     | .error _ => ans
   else ans
+
+def stvExnAlts (cfg : STVCfg) (p : Profile) (ω : STVOracle) (qok : Bool) (ans : Json) : Json :=
+  exnAltsOver cfg p.cands (fun c' => stvRun cfg { p with cands := c' } ω qok) ans
 
 def quotaOk (j : Json) : Bool :=
   match fieldD j "quota" (.str "droop") with
@@ -278,7 +281,8 @@ def handle (j : Json) : D Json := do
     let ω ← getSTVOracle j
     let m1 ← getInt (← field j "m1")
     let m2 ← getInt (← field j "m2")
-    pure (jOutcome jStates (alaskaRun p m1 m2 cfg ω (quotaOk j)))
+    pure (jOutcome jStates (alaskaRun p m1 m2 cfg ω (quotaOk j)) |>
+      exnAltsOver cfg p.cands (fun c' => alaskaRun { p with cands := c' } m1 m2 cfg ω (quotaOk j)))
   | "random_dictator" => do
     let p ← getProfile (← field j "profile")
     let m ← getInt (← field j "m")
